@@ -491,7 +491,7 @@ static void p4_run(uint64_t idx, vh_rng_t * rng) {
 
 int main(int argc, char ** argv) {
     static const vh_phase_t phases[] = { { "well-formed lists x signatures", p0_count, p0_run }, { "malformed data", p1_count, p1_run }, { "input return value", p2_count, p2_run }, { "several units per message", p3_count, p3_run }, { "array readers", p4_count, p4_run } };
-    vh_decoy_enable(5); vh_require("decoy.messages_run_on_a_second_context");
+    vh_scribble_chunk_in_callbacks(1); vh_decoy_enable(5); vh_require("decoy.messages_run_on_a_second_context");
     vh_require("items.number_token_of_256_or_more_characters"); vh_require("items.number_token_of_64_to_255_characters"); vh_require("clause.error-109"); vh_require("history.pending_input_discarded_by_the_application"); vh_require("clause.error-108"); vh_require("clause.error-104"); vh_require("clause.error-138"); vh_require("clause.error-131");
     vh_require("clause.error-224"); vh_require("clause.error-200"); vh_require("clause.optional_absent_silent"); vh_require("clause.item_delivered_whole");
     vh_require("clause.no_error"); vh_require("clause.malformed_gets_command_error"); vh_require("clause.return_true"); vh_require("clause.return_false");
